@@ -199,7 +199,9 @@ def genC19g (tier : Tier) (seed : Nat) (o : Out) : IO Unit := do
       let (bare, r6) := r5.below 2
       let (tc, r7) := r6.below 3
       r := r7
-      let p := pre ++ ['.', '/', 'g', Char.ofNat (49 + j)] ++ post
+      -- every third scenario repeats generator paths (`-G ./g1,… -G ./g2,… -G ./g1,…`): each option starts its own process
+      let gi := if i % 3 == 2 then j % 2 else j
+      let p := pre ++ ['.', '/', 'g', Char.ofNat (49 + gi)] ++ post
       let spec := if bare == 0 then render p as else renderBare p as
       ss := ss ++ [if tc == 0 then spec ++ [','] else spec]
     o.line ((G19.multiCase "gens" ss).replace "multi\tgens" "gens\tgens")
